@@ -93,6 +93,10 @@ def toIsoDuration(secs: float | str | datetime.timedelta) -> str:
         secs = secs.total_seconds()
     milli_secs = int((secs - math.floor(secs)) * 1000 + 0.5)
     secs = int(math.floor(secs))
+    if milli_secs >= 1000:
+        # the fraction rounded up to a whole second
+        secs += 1
+        milli_secs -= 1000
     hrs = secs // 3600
     rv = ['PT']
     secs %= 3600
